@@ -21,7 +21,11 @@ RULE = (
     "and get AND forks in async mode), written as nested JSON "
     "documents (1..3 files, groups x spans) with a field mapping; config "
     "sync or async; PV key mapping absent or a drawn renaming of all seven "
-    "keys; batch size drawn. Three runs through the real entry point "
+    "keys; batch size drawn; span types and application names also in the "
+    "forms real telemetry has (route templates with /* and */, doubled "
+    "slashes, URLs, quotes and braces); a fixed family of single-trace "
+    "workflows with 64, 99, 100, 101, 128, 199, 200, 256 spans, sync and "
+    "async. Three runs through the real entry point "
     "(tel2puml.__main__.parser + main_handler): A = otel2puml -om; B1 = "
     "otel2pv -se [-mc]; B2 = pv2puml -fp <out>/<workflow> -jn <workflow> "
     "-om [-mc] per workflow (in half of the cases the saved files are "
@@ -206,7 +210,15 @@ def check_case(case, ctx=None, fresh=False):
             saved = []
             for fn in sorted(os.listdir(d)):
                 with open(os.path.join(d, fn)) as f:
-                    arr = json.load(f)
+                    try:
+                        arr = json.load(f)
+                    except ValueError as e:
+                        raise Violation(f"saved file {name}/{fn} is not "
+                                        f"valid JSON: {e}")
+                if not isinstance(arr, list) or not all(
+                        isinstance(e, dict) for e in arr):
+                    raise Violation(f"saved file {name}/{fn} is not a list "
+                                    f"of event objects")
                 evs = []
                 for e in arr:
                     if inv:
@@ -381,6 +393,11 @@ def classify(case):
     if any(len(tr) != len(w["traces"][0]) for w in case["workflows"]
            for tr in w["traces"]):
         cl.append("varying_number_of_same_typed_calls")
+    if any("/*" in t[1] or "//" in t[1] or "//" in w["app"] or "/*" in w["app"]
+           for w in case["workflows"] for tr in w["traces"] for t in tr):
+        cl.append("values_that_look_like_comments")
+    if any(len(tr) >= 64 for w in case["workflows"] for tr in w["traces"]):
+        cl.append("trace_with_>=64_spans")
     if any(set("[]*?") & set(n) for n in wfs):
         cl.append("workflow_name_with_glob_character")
     if any(t[1].endswith(" ") for w in case["workflows"]
@@ -402,6 +419,11 @@ def strategy():
     @st.composite
     def workflow(draw, name, wi):
         n = draw(st.integers(1, 8))
+        # span types as they look in real telemetry: plain, route templates
+        # (contain "/*" and "*/"), doubled slashes, JSON-ish punctuation
+        deco = draw(st.sampled_from(
+            ["{}", "{}", "{}", "GET /{}/*/items", "{}//x", "rpc:{}\"q\"",
+             "{} {{a: 1}}"]))
         tmpl = []
         used = {}
         for k in range(n):
@@ -410,7 +432,7 @@ def strategy():
             while a in used.setdefault(parent, set()):
                 a += 1
             used[parent].add(a)
-            tmpl.append([parent, f"{chr(65 + wi)}{k}", a,
+            tmpl.append([parent, deco.format(f"{chr(65 + wi)}{k}"), a,
                          draw(st.integers(1, 12))])
         suffix = draw(st.sampled_from(["x", "x", " "]))
         parents = {t[0] for t in tmpl}
@@ -436,7 +458,8 @@ def strategy():
                     tr.append(c)                  # far from the others
             traces.append(tr)
         return {"name": name, "app": draw(st.sampled_from(
-            ["app", "svc-a", "B", ""])), "traces": traces}
+            ["app", "svc-a", "B", "", "http://svc:80/a", "a/*b*/c"])),
+            "traces": traces}
 
     @st.composite
     def build(draw):
@@ -503,6 +526,26 @@ def run_shard(ctx):
         ctx.record(case, nt, cl)
         check_case(case, ctx)
 
+    # traces with a round number of spans (chunk sizes of writers): one
+    # root whose children are called one after the other
+    sizes = [64, 100, 128, 200, 256, 99, 101, 199]
+    for i, size in enumerate(sizes):
+        if i % ctx.nshards != ctx.shard and \
+                (i + len(sizes)) % ctx.nshards != ctx.shard:
+            continue
+        asyn = (i % ctx.nshards != ctx.shard)
+        tr = [[None, "R", 0, 3 * size + 5]] + [
+            [0, f"S{k}", 1 + 3 * k, 2] for k in range(size - 1)]
+        case = {"workflows": [{"name": "big", "app": "app", "traces": [tr]}],
+                "async": asyn, "files": 1, "batch": 1000,
+                "sched": ctx.seed * 100 + i}
+        nt, cl = classify(case)
+        ctx.record(case, True, cl)
+        try:
+            check_case(case, ctx)
+        except Violation as v:
+            ctx.violation(case, f"[trace of {size} spans] " + str(v))
+            return
     n = 30 if ctx.tier == "quick" else 400
     if ctx.run_given(strategy(), fn, n, shrinker=shrinker):
         return
